@@ -706,6 +706,10 @@ func (l *Line) checkRange(bpos, epos int) (int, int, bool) {
 		epos = l.Len()
 	}
 
+	if bpos > l.Len() {
+		bpos = l.Len()
+	}
+
 	if bpos < 0 {
 		bpos = 0
 	}
